@@ -2,7 +2,7 @@
    Vocabulary: a history is the list of Model.event of a timer system in the order
    they happen; Spec.accepted strict res t0 h = the checker of Spec.v accepts h. *)
 From Coq Require Import ZArith List Bool.
-From C15 Require Import Generated Model Spec Proofs.
+From C15 Require Import Generated Model Spec Proofs OnTime.
 Import ListNotations.
 Open Scope Z_scope.
 
@@ -100,6 +100,24 @@ Proof.
 Qed.
 Print Assumptions C15_strict_holds_outside_early_dispatch.
 
+(* ... which is guaranteed by a hypothesis on the LATENCIES when there is one timer and no external handle:
+   every wake-up at or after the earliest deadline ==> every tick at or after the deadline of its handle
+   (any interval, any script incl. self-cancel / raise / redefinition, any fuel) *)
+Theorem C15_single_timer_on_time : forall cfg t0 gap iv scr lats fuel, 0 < c_res cfg ->
+  Forall (fun l => 0 <= l) lats ->
+  Forall tick_on_time (snd (simulate src_flags cfg t0 [] [mk_tspec gap iv scr] [] lats fuel)) /\
+  accepted true (c_res cfg) t0 (snd (simulate src_flags cfg t0 [] [mk_tspec gap iv scr] [] lats fuel)).
+Proof.
+  exact (fun cfg t0 gap iv scr lats fuel Hres Hl =>
+    let F := conj (eq_refl : f_guard src_flags = true) (conj (eq_refl : f_clear src_flags = true)
+              (conj (eq_refl : f_mono src_flags = true) (conj (eq_refl : f_truth src_flags = true)
+                (eq_refl : f_resolve src_flags = true)))) in
+    let Hon := single_timer_on_time src_flags cfg t0 gap iv scr lats fuel F Hres Hl in
+    conj Hon (strict_accepts_on_time (c_res cfg) _ (mstate0 t0) Hon
+                (simulate_accepted src_flags cfg t0 [] [mk_tspec gap iv scr] [] lats fuel F Hres))).
+Qed.
+Print Assumptions C15_single_timer_on_time.
+
 (* ---- witnesses ---------------------------------------------------------------------- *)
 Definition cfgw := mk_config 1024 false.
 Definition sec := 1048576.
@@ -112,6 +130,18 @@ Definition rejected (fl : flags) strict xs ts lats : Prop :=
 Theorem C15_strict_early_refuted :
   rejected (mk_flags true true true true true) true [] [mk_tspec 0 sec [mk_step 0 yes ANone; default_step]] [-512].
 Proof. vm_compute. reflexivity. Qed.
+
+(* The single-timer hypothesis cannot be dropped: two timers whose boundaries lie within one clock resolution
+   (created 2^-11 s apart, resolution 2^-10 s), every latency 0: the loop wakes exactly on the first deadline and,
+   by asyncio's rule, runs the second handle too, 2^-11 s before its boundary. *)
+Theorem C15_on_time_refuted_for_two_timers :
+  let lats := [0; 0; 0] in
+  let tr := snd (simulate (mk_flags true true true true true) cfgw 0 []
+                   [mk_tspec 0 sec [mk_step 0 (RNum 0) ANone]; mk_tspec 512 sec [mk_step 0 (RNum 0) ANone]] [] lats 8) in
+  Forall (fun l => 0 <= l) lats /\ In (EvTick 1 1048576 1049088 0) tr /\ 1048576 < 1049088.
+Proof.
+  split; [repeat constructor; apply Z.le_refl|]. split; [vm_compute; auto 10 | reflexivity].
+Qed.
 
 (* R9, first class (repaired by the guard): cancel-self inside the callback, then return true *)
 Theorem C15_self_cancel_refuted_without_guard :
